@@ -89,6 +89,24 @@ func H_Reject() {
 			op = ""
 		}
 		pol.Syscalls[dg].NamesWithCondtions[di].Conditions[dk].Operation = op
+	case "noconds":
+		// a conditional entry WITHOUT conditions (nil, empty, or a fresh entry that never had any). The
+		// statement neither demands rejection nor acceptance of it; what it demands is that no rule is
+		// silently dropped: if the policy is accepted, the entry must match like the reference says
+		// (a list with no conditions has all its conditions satisfied).
+		g := &pol.Syscalls[dg]
+		switch dv {
+		case 0:
+			g.NamesWithCondtions[di].Conditions = nil
+			p.groups[dg].entries[di].conds = nil
+		case 1:
+			g.NamesWithCondtions[di].Conditions = ArgumentConditions{}
+			p.groups[dg].entries[di].conds = nil
+		default:
+			n := vParamStr("freshname")
+			g.NamesWithCondtions = append(g.NamesWithCondtions, NameWithConditions{Name: n})
+			p.groups[dg].entries = append(p.groups[dg].entries, vEntry{name: n})
+		}
 	default:
 		panic("H_Reject: unknown defect " + defect)
 	}
@@ -101,6 +119,27 @@ func H_Reject() {
 		return
 	}
 	vCover("cover.returned")
+	if defect == "noconds" {
+		if err != nil {
+			vAssert(prog == nil, "C07.noprog")
+			vCover("cover.noconds_rejected")
+			return
+		}
+		vCover("cover.noconds_accepted")
+		raw, aerr := bpf.Assemble(prog)
+		vAssert(aerr == nil, "C07.nodrop_encodes")
+		if aerr != nil {
+			return
+		}
+		ev := vNondetEvent()
+		ret, done, _ := kmiRun(raw, ev.words(false))
+		vObs("nr", uint64(ev.nr))
+		vObs("ret", uint64(ret))
+		vObs("want", uint64(refDecide(p, ev, true)))
+		vKnownNoConds(ev.nr)
+		vAssert(vAnd(done, ret == refDecide(p, ev, true)), "C07.nodrop")
+		return
+	}
 	tag := "C07.reject." + defect
 	if defect == "badop" {
 		tag = "C07.noweaken"
@@ -111,3 +150,7 @@ func H_Reject() {
 		vCover("cover.rejected")
 	}
 }
+
+// known-finding predicate (active only while listed as open)
+func vKnownNoConds(nr uint32) {}
+
